@@ -370,6 +370,12 @@ impl KeyKeeperSharedState {
         }
     }
 
+    /// Get the guid and the value of the current key with a single read,
+    /// so that both always belong to the same key even while the key is being replaced.
+    pub async fn get_current_key_guid_and_value(&self) -> Result<Option<(String, String)>> {
+        Ok(self.get_key().await?.map(|k| (k.guid, k.key)))
+    }
+
     pub async fn get_current_key_incarnation(&self) -> Result<Option<u32>> {
         match self.get_key().await {
             Ok(Some(k)) => Ok(k.incarnationId),
